@@ -50,6 +50,8 @@ type MemNode struct {
 	limit *Term
 	// provenance for on-demand facts: which ObjSort bound holds for values read from a base
 	objBound *Term
+	// havocObjs: object ids (absolute) that are not affected
+	except map[int64]bool
 }
 
 type MemState struct {
@@ -210,6 +212,18 @@ func (mc *MemCtx) Sel(m *MemNode, obj, off *Term) *Term {
 		r = tb.UF("sbyte", BV8, m.val, off)
 	case mHavocObjs:
 		c := tb.Ult(obj, m.limit)
+		// private (non-escaping) local variables of the active frames keep their content
+		if len(m.except) > 0 && !c.IsFalse() {
+			if obj.Op == "bv" {
+				if m.except[obj.Val.Int64()] {
+					c = tb.False()
+				}
+			} else if !tb.isLow(obj) {
+				for id := range m.except {
+					c = tb.And(c, tb.Not(tb.Eq(obj, tb.BV(32, id))))
+				}
+			}
+		}
 		if c.IsTrue() {
 			r = mc.Sel(m.fresh, obj, off)
 		} else if c.IsFalse() {
